@@ -337,11 +337,30 @@ theorem SubOk_offer {ws : List Rec} {s : Sub} (r : Rec) (h : SubOk ws s ws.lengt
       · exact ⟨consumed, by simp [hvis, hroom, List.filter_append, h4, accepted]⟩
     · exact ⟨consumed, by simp [hvis, h4, accepted]⟩
 
+/-- The loop of `notifySubscribers` visits every subscription: none of the three paths of an iteration leaves the
+    loop (regenerated from the source), so the loop is one independent `offer` per list entry. -/
+theorem notifyLoop_eq_map (r : Rec) : ∀ l : List Sub, notifyLoop r l = l.map (·.offer r) := by
+  intro l
+  induction l with
+  | nil => rfl
+  | cons s ss ih =>
+    have e1 : PB.Gen.Subs.notifySentExits = false := rfl
+    have e2 : PB.Gen.Subs.notifyFullExits = false := rfl
+    have e3 : PB.Gen.Subs.notifySkipExits = false := rfl
+    simp only [notifyLoop, e1, e2, e3, Bool.false_eq_true, if_false, ih, List.map_cons, Sub.offer]
+    by_cases hv : s.visible r = true
+    · by_cases hroom : s.buf.length < PB.Gen.Subs.feedCap <;> simp [hv, hroom]
+    · simp [hv]
+
+theorem notify_subs (st : St) (r : Rec) : (notify st r).subs = st.subs.map (·.offer r) := by
+  simp only [notify, notifyLoop_eq_map]
+
 theorem Inv_notify {st : St} (r : Rec) (h : Inv st) : Inv (notify st r) := by
   obtain ⟨ha, hc⟩ := h
   constructor
   · intro s hs
-    simp only [notify, List.mem_map] at hs
+    rw [notify_subs] at hs
+    simp only [List.mem_map] at hs
     obtain ⟨s0, hs0, rfl⟩ := hs
     exact SubOk_offer r (ha s0 hs0)
   · intro p hp
@@ -502,8 +521,14 @@ theorem Inv_step {st : St} (op : Op) (h : Inv st) : Inv (step st op).1 := by
       · exact Inv_ctrlPut _ (Inv_congr rfl rfl rfl h)
       · exact Inv_ctrlPut _ h
   | get o key => exact h
+  | exists_ o key => exact h
   | push r => exact Inv_notify r h
   | flush => exact Inv_congr rfl rfl rfl h
+  | putMany o rs =>
+    simp only [step]
+    split
+    · exact h
+    · exact Inv_congr rfl rfl rfl h
   | drain =>
     simp only [step]
     obtain ⟨ha, hc⟩ := h
@@ -518,6 +543,28 @@ theorem Inv_step {st : St} (op : Op) (h : Inv st) : Inv (step st op).1 := by
       obtain ⟨s0, u0, hs0, rfl⟩ := hp
       obtain ⟨a, b, c, d⟩ := hc (s0, u0) hs0
       exact ⟨a, b, c, accepted s0, by simp [accepted]⟩
+  | drainOne id =>
+    simp only [step]
+    obtain ⟨ha, hc⟩ := h
+    constructor
+    · intro s hs
+      simp only [List.mem_map] at hs
+      obtain ⟨s0, hs0, rfl⟩ := hs
+      obtain ⟨a, b, c, d⟩ := ha s0 hs0
+      by_cases hid : (s0.id == id) = true
+      · simp only [hid, if_true]
+        exact ⟨a, b, c, accepted s0, by simp [accepted]⟩
+      · simp only [hid]
+        exact ⟨a, b, c, d⟩
+    · intro p hp
+      simp only [List.mem_map] at hp
+      obtain ⟨⟨s0, u0⟩, hs0, rfl⟩ := hp
+      obtain ⟨a, b, c, d⟩ := hc (s0, u0) hs0
+      by_cases hid : (s0.id == id) = true
+      · simp only [hid, if_true]
+        exact ⟨a, b, c, accepted s0, by simp [accepted]⟩
+      · simp only [hid]
+        exact ⟨a, b, c, d⟩
 
 theorem Inv_run : ∀ (ops : List Op) (st : St), Inv st → Inv (run st ops).1 := by
   intro ops
@@ -770,9 +817,24 @@ theorem step_calls_from (st : St) (op : Op) : ∀ c ∈ (step st op).2.calls, Ca
         | ok p => obtain ⟨r, same⟩ := p; simpa using hc
       rw [hcalls] at this
       exact ctrlGet_from st key c this
+  | exists_ o key =>
+    simp only [step, ifaceExists] at hc
+    have hcalls := ifaceGetRec_calls st o key
+    cases hg : ifaceGetRec st o key with
+    | mk cs v =>
+      rw [hg] at hc hcalls
+      simp only [] at hcalls
+      have : c ∈ cs := by
+        cases v with
+        | error e => cases e <;> simpa using hc
+        | ok p => obtain ⟨r, same⟩ := p; simpa using hc
+      rw [hcalls] at this
+      exact ctrlGet_from st key c this
   | push r => simp [step] at hc
   | flush => simp [step] at hc
+  | putMany o rs => simp only [step] at hc; split at hc <;> simp at hc
   | drain => simp [step] at hc
+  | drainOne id => simp [step] at hc
 
 /-! ## hook registration -/
 
@@ -864,8 +926,11 @@ theorem step_hooks (st : St) (op : Op) :
       · exact (ctrlPut_hooks _ _).1
       · exact (ctrlPut_hooks _ _).1
   | get o key => rfl
+  | exists_ o key => rfl
   | push r => rfl
   | flush => rfl
+  | putMany o rs => simp only [step]; split <;> rfl
   | drain => rfl
+  | drainOne id => rfl
 
 end PB.Subs
